@@ -261,8 +261,8 @@ func (s *Server) getTargetInfo(ctx context.Context, targets map[configapi.Target
 		return nil, err
 	}
 
-	// Use the type/version overrides if they are specified
-	if ttv, ok := overrides.Overrides[string(targetID)]; ok {
+	// Use the type/version overrides if they are specified (a map entry decoded without value is nil)
+	if ttv, ok := overrides.Overrides[string(targetID)]; ok && ttv != nil {
 		targetType = ttv.TargetType
 		targetVersion = ttv.TargetVersion
 	} else {
